@@ -41,12 +41,13 @@ static int do_init(int i, uint64_t pat, size_t *psize, int *ret)
 }
 
 static int compiled_max = 2;   /* --maxbe: widest back end compiled into the library */
+static int compiled_128 = 1;   /* --sub no128: the 128-bit back ends are compiled out while the 256-bit ones are in */
 
 static int expected_be(int i, int usable128, int usable256)
 {
     int is128 = (i % 3) == 0;
     if (is128 && usable256 && compiled_max >= 2) return BE_V256;
-    if (usable128 && compiled_max >= 1) return BE_V128;
+    if (usable128 && compiled_max >= 1 && compiled_128) return BE_V128;
     return BE_GEN;
 }
 
@@ -75,7 +76,7 @@ int main(int argc, char **argv)
     int i, rep; size_t k;
     int host = host_max_backend();
     parse_opts(argc, argv);
-    compiled_max = g_opts.maxbe;
+    compiled_max = g_opts.maxbe; compiled_128 = !(g_opts.sub && !strcmp(g_opts.sub, "no128"));
     for (rep = 0; rep < 3; ++rep) for (k = 0; k < sizeof(PATS) / sizeof(PATS[0]); ++k) for (i = 0; i < 6; ++i) {
         size_t ps; int ret, be; char cd[100], env[200];
         g_paint = (int)(PATS[k] & 0xFF);
@@ -151,7 +152,7 @@ int main(int argc, char **argv)
     int host = host_max_backend(), i, skipped = 0;
     unsigned a, b, c, d, e, f, g, h, k; unsigned long states = 0;
     parse_opts(argc, argv);
-    compiled_max = g_opts.maxbe;
+    compiled_max = g_opts.maxbe; compiled_128 = !(g_opts.sub && !strcmp(g_opts.sub, "no128"));
     for (a = 0; a < 8; ++a) for (b = 0; b < 2; ++b) for (c = 0; c < 2; ++c) for (d = 0; d < 2; ++d) for (e = 0; e < 2; ++e)
     for (f = 0; f < 4; ++f) for (g = 0; g < 2; ++g) for (h = 0; h < 2; ++h) for (k = 0; k < 2; ++k) {
         int usable128, usable256; char env[300], cd[120];
